@@ -1,6 +1,7 @@
 import Duckling.Model.Compile
 import Duckling.Lemmas.RBasic
 import Duckling.Lemmas.OptsOut
+import Duckling.Lemmas.SimInst
 /-
   C15 — options do what they say through every entry point.
 
@@ -20,8 +21,18 @@ import Duckling.Lemmas.OptsOut
                               every stack it creates; hereditary walk instance with the context invariant "comments are off");
   * `C15_flipper_off_no_flipper_line`  likewise with Flipper commands off no output line begins with a Flipper-only command word;
   * `C15_compile_comments_off` / `C15_compile_flipper_off`  the same for `Compiler.compile`.
-  The metamorphic statement (comments-on output = comments-off output with the REM lines inserted) is validated by the
-  correspondence over all option combinations, not proved — `partial` in that respect.
+  * `C15_suppress_whole`        **two whole compilations related**: compiling with unknown-command warnings suppressed gives exactly the
+                              result of compiling without suppression — same output, prints, variables, the same error with the same
+                              trace — with the unknown-command warnings removed from the warning list and every other warning kept in
+                              order (any source whose command lines are non-blank, any file system; `C15_suppress_text` for text, where
+                              that hypothesis is discharged by the parser theorem);
+  * `C15_comments_whole`        compiling with comments off gives exactly the result of compiling with comments on with the REM lines
+                              filtered out of the output: the same warnings, prints, variables, the same error — REM changes nothing
+                              but its own line (programs without IGNORE blocks, which may emit any text);
+  * `C15_flipper_whole`         either the compilation fails with InvalidCommand, or compiling with Flipper commands enabled gives the
+                              very same result: the Flipper option only ever adds that error (`C15_flipper_text` for text).
+  These three are instances of the simulation walk (Lemmas/Sim, Lemmas/SimInst): two runs of the same code in lock-step through
+  every function of the interpreter, for any nesting, calls and imports.
 -/
 namespace Duckling.Props.C15
 open Duckling
@@ -143,5 +154,58 @@ theorem C15_compile_flipper_off (opts : Opts) (fs : FS) (file : Option Path) (sr
     (h : compile opts fs file src = .ok out warns prints vars) : ∀ l ∈ out, firstWord l ∉ flipperWords := by
   obtain ⟨nodes, r, hn, hr, rfl⟩ := compile_out_of_exec opts fs file src out warns prints vars h
   exact C15_flipper_off_no_flipper_line _ nodes _ _ r hoff (hsrc nodes hn) (initEnv_stOk _) hfs hr
+
+/-- the warnings that are not "unknown command" warnings -/
+def keptWarns (ws : List Warn) : List Warn := ws.filter notNE
+
+/-- **suppression only removes the unknown-command warnings** — whole compilations, any nesting, calls and imports -/
+theorem C15_suppress_whole (opts : Opts) (fs : FS) (file : Option Path) (src : Source)
+    (hsrc : ∀ nodes, prepare src = .ok nodes → allCmdsL nbq nodes = true) :
+    compile { opts with suppress := true } fs file src =
+      match compile opts fs file src with
+      | .ok out warns prints vars => .ok out (keptWarns warns) prints vars
+      | r => r := by
+  have h := compile_sim simSpec_suppress rfl opts { opts with suppress := true } rfl rfl fs file src hsrc (fsOk_nonBlank fs)
+  rcases h with ⟨_, _, he⟩ | h
+  · exact he.elim
+  · rw [h]
+    cases compile opts fs file src <;> simp only [Result.mapWO, simSuppress_out] <;> rfl
+
+theorem C15_suppress_text (opts : Opts) (fs : FS) (file : Option Path) (t : Str) :
+    compile { opts with suppress := true } fs file (.text t) =
+      match compile opts fs file (.text t) with
+      | .ok out warns prints vars => .ok out (keptWarns warns) prints vars
+      | r => r :=
+  C15_suppress_whole opts fs file (.text t) (prepare_text_nbq t)
+
+/-- **comments off = comments on with the REM lines removed** — whole compilations of programs without IGNORE blocks -/
+theorem C15_comments_whole (opts : Opts) (fs : FS) (file : Option Path) (src : Source)
+    (hsrc : ∀ nodes, prepare src = .ok nodes → allCmdsL niq nodes = true) (hfs : FSOk niq fs) :
+    compile { opts with comments := false } fs file src =
+      match compile opts fs file src with
+      | .ok out warns prints vars => .ok (out.filter notRem) warns prints vars
+      | r => r := by
+  have h := compile_sim simSpec_comments rfl opts { opts with comments := false } rfl rfl fs file src hsrc hfs
+  rcases h with ⟨_, _, he⟩ | h
+  · exact he.elim
+  · rw [h]
+    cases compile opts fs file src <;> simp [Result.mapWO, SimP.out, simComments]
+
+/-- **the Flipper option only ever adds InvalidCommand** — whole compilations -/
+theorem C15_flipper_whole (opts : Opts) (fs : FS) (file : Option Path) (src : Source)
+    (hsrc : ∀ nodes, prepare src = .ok nodes → allCmdsL nbq nodes = true) :
+    (∃ e, compile opts fs file src = .err e ∧ e.k = .invalidCommand) ∨
+      compile { opts with flipper := true } fs file src = compile opts fs file src := by
+  have h := compile_sim simSpec_flipper rfl opts { opts with flipper := true } rfl rfl fs file src hsrc (fsOk_nonBlank fs)
+  rcases h with h | h
+  · exact Or.inl h
+  · right
+    rw [h]
+    cases compile opts fs file src <;> simp only [Result.mapWO, simFlipper_out] <;> rfl
+
+theorem C15_flipper_text (opts : Opts) (fs : FS) (file : Option Path) (t : Str) :
+    (∃ e, compile opts fs file (.text t) = .err e ∧ e.k = .invalidCommand) ∨
+      compile { opts with flipper := true } fs file (.text t) = compile opts fs file (.text t) :=
+  C15_flipper_whole opts fs file (.text t) (prepare_text_nbq t)
 
 end Duckling.Props.C15
